@@ -374,6 +374,10 @@ def _dereify_agenda(g: Graph, model: Model) -> _Dereification:
             except ModelError:
                 pass
             else:
+                if dereified[0] not in inst:
+                    # the source of a relation must be a node; a constant
+                    # in the source argument cannot be dereified
+                    continue
                 # migrate epidata
                 epidata: List[Epidatum] = []
                 if instance in alns:
